@@ -77,11 +77,18 @@ def diagnose(W):
     pc = W.case['pool']
     live = [w for w in W.workers.values() if not w['proc'].dead]
     if W.closed_at is not None and pc.get('maxtasksperchild'):
-        recycled_after_close = [w for w in W.workers.values() if w['proc'].dead and
-                                w['proc'].status == ('exit', EX_RECYCLE) and
-                                w['proc'].death_step >= W.closed_at[0]]
-        if recycled_after_close and len(live) < pc['processes']:
+        # workers that reached their quota and were never replaced because close() stops the supervisor
+        # (they exited after close(), or shortly before it and the next supervision pass never came)
+        started_after_close = [w for w in W.workers.values() if w['start_step'] > W.closed_at[0]]
+        recycled = [w for w in W.workers.values() if w['proc'].dead and
+                    w['proc'].status == ('exit', EX_RECYCLE)]
+        live_n = W.marks.get('live_before_terminate', len(live))
+        th_stuck = any(a.kind == 'TaskHandler' and a.state != 'done' for a in k.actors)
+        queued = len(W.in_pipe.buf) > 0 or (W.pool is not None and W.pool._taskqueue.qsize() > 0) or th_stuck
+        if recycled and not started_after_close and live_n < pc['processes'] and queued:
             return 'recycled-after-close-not-replaced'
+    if W.marks.get('task_stream_desync'):
+        return 'task-stream-desynchronised-by-signal-in-half-read-task'
     if not pc.get('threads', True):
         return 'nothreads'
     return 'other'
@@ -258,7 +265,14 @@ def check_failure(W, rec, tname, args, exc, einfo, ex, owners):
             want = [human_status_of(st) for _i, _p, st in dead]
             msg = str(args[0]) if args else ''
             if not any(w in msg for w in want):
-                W.bad('C04.a', 'status-not-named:%s' % rec.kind,
+                # was the death reaped before the parent had consumed the job's accept message?
+                why = 'other'
+                acc = [c[0] for c in rec.cbs if c[2] == 'acc']
+                for _i, dpid, _st in dead:
+                    reap = next((e[0] for e in k.log if e[2] == 'reaped' and e[3] == dpid), None)
+                    if reap is not None and (not acc or acc[0] > reap) and rec.kind == 'apply':
+                        why = 'death-reaped-before-accept-consumed'
+                W.bad('C04.a', 'status-not-named:%s:%s' % (rec.kind, why),
                       'job %r: message %r does not name the exit status %r' % (uid, msg, want))
         return
     if tname == 'TimeLimitExceeded':
